@@ -19,7 +19,7 @@ func init() {
 		Covers:         "Manager.sender, updater, ApplyConfig (trigger), updateGroup, allGroups, cleaner; lockset of Manager.targets; lock order mtx/Provider.mu/targetsMtx.",
 		NotCover:       "timing (back-off), convergence under continuous updates, what the providers report.",
 		Run:            runC47,
-		MinObligations: 16,
+		MinObligations: 24,
 	})
 }
 
@@ -115,4 +115,44 @@ func runC47(c *eng.Ctx) {
 		rs, ok := n.(*ast.RangeStmt)
 		return ok && eng.ExprString(rs.X) == "m.providers"
 	}, "exists", func(ast.Node) bool { return true }, 1)
+	// ---- R4 reload: a job newly served by a running provider starts from that provider's current groups ----
+	// (a static or slow provider may never send again, so without the copy the new job would stay empty)
+	var refFrom, copied, keyed bool
+	var subsSwap, subsReset, provKept, provInstalled int
+	ast.Inspect(a.Body, func(n ast.Node) bool {
+		switch x := n.(type) {
+		case *ast.RangeStmt:
+			switch eng.ExprString(x.X) {
+			case "prov.subs":
+				if x.Key != nil && strings.Contains(nodeText(x.Body), "refTargets = m.targets[poolKey{"+eng.ExprString(x.Key)+", prov.name}]") {
+					refFrom = true
+				}
+			case "prov.newSubs":
+				if x.Key != nil {
+					k := "m.targets[poolKey{" + eng.ExprString(x.Key) + ", prov.name}]"
+					t := nodeText(x.Body)
+					keyed = strings.Contains(t, k+" = ")
+					copied = strings.Contains(t, "maps.Copy("+k+", refTargets)") || strings.Contains(t, k+" = maps.Clone(refTargets)") || strings.Contains(t, k+" = refTargets")
+				}
+			}
+		case *ast.AssignStmt:
+			switch nodeText(x) {
+			case "prov.subs = prov.newSubs":
+				subsSwap = int(x.Pos())
+			case "prov.newSubs = map[string]struct{}{}":
+				subsReset = int(x.Pos())
+			case "newProviders = append(newProviders, prov)":
+				provKept = int(x.Pos())
+			case "m.providers = newProviders":
+				provInstalled = int(x.Pos())
+			}
+		}
+		return true
+	})
+	c.Check("R4", a.Where(), "the reference groups for new subscriptions are read from an existing subscription of the same provider", refFrom, p.Pos(a.Body.Pos()), "")
+	c.Check("R4", a.Where(), "every new subscription of a kept provider receives the provider's current groups under its own pool key", keyed && copied, p.Pos(a.Body.Pos()),
+		"a job added to a provider that is already running (same SD config as another job) would otherwise have no targets until the provider sends again — never, for static configs")
+	c.Check("R4", a.Where(), "the provider's subscriptions are replaced by the new ones before the new set is reset", subsSwap > 0 && subsReset > subsSwap, p.Pos(a.Body.Pos()), "")
+	c.Check("R4", a.Where(), "kept providers are collected and installed as the provider list", provKept > 0 && provInstalled > provKept, p.Pos(a.Body.Pos()), "")
+	a.DomOK("R4", eng.Node("m.providers = newProviders", func(g *eng.Graph, n ast.Node) bool { return nodeText(n) == "m.providers = newProviders" }))
 }
